@@ -6,6 +6,7 @@ import (
 	"errors"
 	"fmt"
 	"io"
+	"math"
 	"net"
 	"net/http"
 	"net/http/httptest"
@@ -536,6 +537,11 @@ func TestC20UUIDToString(t *testing.T) {
 func TestC20STSHeaderNumber(t *testing.T) {
 	hx.Check(t, hx.Scale(2000, 50000), func(t *rapid.T) {
 		age := int(rapid.Int32Range(1, 1<<31-1).Draw(t, "maxage"))
+		if rapid.IntRange(0, 9).Draw(t, "beyond-int32") == 0 {
+			// proxy.header.sts.maxage is an int option: larger values are accepted by the configuration
+			age = rapid.SampledFrom([]int{1 << 31, 1<<31 + 5, 1<<32 - 1, 1 << 32, 1 << 40, math.MaxInt64}).Draw(t, "bigage")
+			hx.Class("sts-maxage-beyond-int32")
+		}
 		p := newProxy(nil, "", config.Proxy{STSHeader: config.STSHeader{MaxAge: age}})
 		rec := httptest.NewRecorder()
 		req := httptest.NewRequest("GET", "https://example.com/", nil) // sets req.TLS
